@@ -277,7 +277,9 @@ def make(case):
     if n == "never":
         return (lambda env, sched: rx.never()), "x_never"
     if n == "throw":
-        return (lambda env, sched: rx.throw(UserError(11), scheduler=sched)), "x_throw 11"
+        # the factory's scheduler argument is shadowed inside throw_ (see Ops/Sources.v)
+        return ((lambda env, sched: rx.throw(UserError(11), scheduler=sched)),
+                "x_throw_immediate 11" if case["via_factory"] else "x_throw 11")
     if n in ("generate", "generate_with_relative_time"):
         cond, it = tbl_unjson(case["cond"]), tbl_unjson(case["iter"])
         pc, pi = py_table(cond, ("ok", False)), py_table(it, ("ok", 0))
